@@ -23,14 +23,15 @@ reg("C20",
     "DESIGN.md §3 C20")
 
 reg("C15",
-    "Lean theorems at the reference instantiation alpha:=R, for EVERY dimension n: under the explicit hypothesis "
-    "PivotsPos (all Cholesky pivots positive; non-vacuity example proved) and symmetry, the model of "
+    "Lean theorems at the reference instantiation alpha:=R, for EVERY dimension n and every symmetric positive-definite "
+    "matrix (Mathlib Matrix.PosDef; pivotsPos_of_posDef proves that PosDef gives positive Cholesky pivots via the leading-block "
+    "factorisation R diag(1..1,piv) R^T), the model of "
     "decompose_for_tropical returns Ok with q_transposed^T q_transposed = A (upper triangular, positive diagonal), "
     "q_transposed_inverse q_transposed = 1 (nilpotent-series inverse proved via N^n=0 and the geometric sum), "
     "inverse = A^-1 and determinant = det A; also Ok with the stability test for every tol >= 0. The model at Float "
     "is compared with the real routine (n=1..8, five SPD families, exact cond <= 1e10) and the real outputs are "
     "checked against exact rational linear algebra with the property's tolerance 100 n^2 eps cond.",
-    "Rounding error is measured, not proved; PosDef => PivotsPos is classical and not formalised; Float assumed IEEE.",
+    "Rounding error is measured, not proved; Float assumed IEEE.",
     "Lean 4 proof (Mathlib matrices) of the exact-arithmetic model + differential correspondence + exact rational oracle",
     "DESIGN.md §3 C15")
 
